@@ -28,6 +28,27 @@ CHECKS = {
             "injection per kind per generated program, degenerate catalogue, corruptions, token soup, import layouts on disk.",
             "An injected program counts as meaningless only if the independent reference semantics rejects it as well.",
             "DESIGN.md 3/C10"),
+    "C14": ("exploration",
+            "runtime monitoring: icontract snapshot+post-condition on SourceMap.rewrite_offsets against a reference, round-trip monitor on serialize",
+            "The real SourceMap objects produced by the compilers / decompilers and random well-typed maps are serialised "
+            "and rewritten through random injective mappings; contracts on the real methods compare every result with a "
+            "15-line reference and with the reloaded map field by field.",
+            "Trusts the reference expected_rewrite in vf/monitors.py and icontract's OLD snapshot.",
+            "DESIGN.md 3/C14"),
+    "C16": ("exploration",
+            "runtime monitoring: recorded compilation results of re-spelled sources compared offline",
+            "Each generated program is re-spelled (hostile layout, comments at every token boundary, alternative literal and "
+            "keyword forms) and compiled by the real compiler; ops with raw offsets, routine tables and position marks must "
+            "be identical to those of the canonical spelling.",
+            "Trusts my token printer: separators are only dropped where tokens cannot glue; string re-spellings only when my decoder agrees.",
+            "DESIGN.md 3/C16"),
+    "C17": ("exploration",
+            "runtime monitoring: offline checker over the recorded token stream of the real Pygments lexer",
+            "Random Unicode strings, token soup and program texts are lexed with the real lexer class; the recorded stream must "
+            "concatenate to the input with contiguous indices within a logical token bound, and contain no error token for "
+            "compiler-accepted sources.",
+            "Pygments' default input preprocessing is re-implemented from its documentation for get_tokens().",
+            "DESIGN.md 3/C17"),
 }
 
 NOT_YET = {
